@@ -72,7 +72,10 @@ func c06GenFileHashes(path string) (map[string][]uint64, error) {
 	return out, nil
 }
 
-func runC06Real(w *core.WorkerCtx, k int) *core.CaseResult {
+func runC06Real(w *core.WorkerCtx, k int) *core.CaseResult { return RealRestartCase(w, k, "C06") }
+
+// RealRestartCase is shared with C11 (the generated file after a restart), which reports under its own id.
+func RealRestartCase(w *core.WorkerCtx, k int, prop string) *core.CaseResult {
 	r := core.NewRng(w.Seed, 0xC06EA1, uint64(k))
 	cfgMode := []string{"pushed", "file"}[k%2]
 	res := &core.CaseResult{Sig: fmt.Sprintf("real-sidecar-restart/%s/%d", cfgMode, k), Nontrivial: true}
@@ -174,11 +177,11 @@ func runC06Real(w *core.WorkerCtx, k int) *core.CaseResult {
 		res.Execs++
 		res.AddStat("real_sidecar_lives", 1)
 		if err != nil {
-			res.Violate("C06/real-sidecar/generated-file-unusable", "life %d: %v", life, err)
+			res.Violate(prop+"/real-sidecar/generated-file-unusable", "life %d: %v", life, err)
 		} else if gs := fmtHashes(got); gs != wantS {
-			sig := "C06/real-sidecar/restart-leaves-targets-out-of-generated-file"
+			sig := prop + "/real-sidecar/restart-leaves-targets-out-of-generated-file"
 			if life == 0 {
-				sig = "C06/real-sidecar/generated-file-differs-from-assignment"
+				sig = prop + "/real-sidecar/generated-file-differs-from-assignment"
 			}
 			res.Violate(sig, "life %d of the real `kvass sidecar` (%s configuration): its status lists the assignment, but the file given to Prometheus holds %s, assigned %s - the targets stay assigned and unscraped, and the coordinator has no reason to post again", life, cfgMode, gs, wantS)
 		}
